@@ -28,6 +28,11 @@ read must not depend on who is enumerated first.  There the keyword arguments
 are handed over as the parser does it (positional mapping-rule expressions),
 directly and through text.
 
+Two more small spaces: definitions that share ONE python callable (made from
+the same function with different parameter types / kinds), registered in every
+order; and a MultiContext layer with exclusive members above a parent layer
+that holds a competing overload, under both member orders.
+
 Oracle (differential): one outcome - payload tag + evaluation log + received
 arguments, or error class - per (family, call spelling), whatever the order,
 driver and path.
@@ -39,7 +44,7 @@ from vf.core import Result
 from vf import resolution as R
 from models import resolve as M
 
-from yaql.language import contexts, specs
+from yaql.language import contexts, specs, yaqltypes
 
 ID = 'C06'
 TITLE = 'resolution is order independent'
@@ -60,7 +65,8 @@ BOUNDS = {
              'also through text for n = 2 and for 1 parameter n = 3; '
              '@no_kwargs mixing: multisets of 2-3 of 5 @no_kwargs shapes [*r:Rule, (), x:Any, x:A, (x,y)] and 5 ordinary shapes '
              '[(), x:Any, x:A, (x:Any, y:A=default), (x,y)] with at least one @no_kwargs x 11 calls (empty, positional, k => v, '
-             'unknown keyword) x all orders x {list, set, text}',
+             'unknown keyword) x all orders x {list, set, text}; '
+             'shared callable: multisets of 2-3 definitions (type x kind) made from one python function, values a b d, both syntaxes, all orders x {list, set}; MultiContext exclusivity: 1-2 overloads per member typed over Any A B C D, exclusive flags (T,F) (F,T) (T,T), parent overload Any|Lazy, values b d, both member orders x all enumeration orders',
     'thorough': 'as quick plus MultiContext splits for every family of quick, method syntax for 2 parameters n = 3, '
                 'all 11 value pairs containing e with lazy signatures, and 2 parameters n = 4: all sets of 4 distinct eager signatures '
                 'for the value pairs over {d, null}, multisets of 4 for (d, d) (list and set drivers, all spellings)',
@@ -154,11 +160,11 @@ def outcomes(sigs, values, method, drivers, spelling='pos'):
     return observe_orders(ovs, call, drivers), ((False, ovs),), call
 
 
-def observe_orders(ovs, call, drivers, rules=False):
+def observe_orders(ovs, call, drivers, rules=False, fds=None):
     """{(driver, detail, order): observation} for all enumeration orders of the
     overloads `ovs` of one layer.  rules=True: keyword arguments travel as the
     parser hands them over (positional `name => expr` expressions)."""
-    fds = [R.definition(o, R.CLASSES6) for o in ovs]
+    fds = fds or [R.definition(o, R.CLASSES6) for o in ovs]
     n = len(fds)
     perms = list(itertools.permutations(range(n)))
     out = {}
@@ -188,7 +194,8 @@ def observe_orders(ovs, call, drivers, rules=False):
             ctx = contexts.Context(base())
             for i in p:
                 ctx.register_function(cfds[i])
-            if list(ctx.get_functions('foo')[0]) != [cfds[i] for i in p]:
+            stored = list(ctx.get_functions('foo')[0])
+            if stored != [cfds[i] for i in p if cfds[i] in stored]:
                 raise AssertionError('harness: the set does not iterate in insertion order')
             out[('set', '', p)] = R.direct(ctx, call, R.VALUES6, rules)
     return out
@@ -348,6 +355,89 @@ def job_mixed(tier):
     return res
 
 
+# several definitions made from ONE python callable (different parameter types / kinds)
+def _shared_payload(x):
+    return R.report('s', (('x', x),))
+
+
+_shared = {}
+
+
+def shared_definition(slot, typ, kind):
+    key = (slot, typ, kind)
+    if key not in _shared:
+        _shared[key] = specs.get_function_definition(
+            _shared_payload, name='foo', convention=R.CONVENTION,
+            parameter_type_func=lambda name: yaqltypes.PythonType(R.CLASSES6[typ], False),
+            function=kind != 'method', method=kind != 'function')
+    return _shared[key]
+
+
+def shared_families():
+    for v in ('a', 'b', 'd'):
+        members = [(t, kind) for t in types_for(v)[:-1] for kind in ('function', 'method', 'ext')]
+        for n in (2, 3):
+            for fam in itertools.combinations_with_replacement(members, n):
+                yield v, fam
+
+
+def job_shared(tier):
+    res = Result()
+    drivers = ('list', 'set')
+    for v, fam in shared_families():
+        ovs = tuple(('s', (P('x', 'pos', t),), kind, False) for t, kind in fam)
+        fds = [shared_definition(i, t, kind) for i, (t, kind) in enumerate(fam)]
+        for method in (False, True):
+            call = call_for((v,), method)
+            res.case(('shared', v, fam, method))
+            obs = observe_orders(ovs, call, drivers, fds=fds)
+            verdict(res, obs, ((False, ovs),), call, drivers, 'definitions sharing one python callable',
+                    {'shared_payload': fam, 'value': v, 'method': method, 'drivers': sorted(drivers)},
+                    (len(fam), 1, method, False, sum(ORDER.index(t) for t, kind in fam), v))
+    return res
+
+
+# a MultiContext layer with an exclusive member above a parent layer that competes
+def multi_exclusive_families():
+    for v in ('b', 'd'):
+        for n, splits in ((2, ((0, 1),)), (3, ((0, 0, 1), (0, 1, 1)))):
+            for types in itertools.product(ORDER[:5], repeat=n):
+                for split in splits:
+                    for flags in ((True, False), (False, True), (True, True)):
+                        for parent in ('Any', 'Lazy'):
+                            yield v, types, split, flags, parent
+
+
+def observe_multi_exclusive(v, types, split, flags, parent):
+    ovs = tuple(('t%d' % i, (P('x', 'pos', t),), 'function', False) for i, t in enumerate(types))
+    pov = ('p', (P('x', 'pos', parent, parent == 'Lazy'),), 'function', False)
+    fds = [R.definition(o, R.CLASSES6) for o in ovs]
+    call = call_for((v,), False)
+    out = {}
+    for member_order in ((0, 1), (1, 0)):
+        below = contexts.Context(base())
+        below.register_function(R.definition(pov, R.CLASSES6))
+        members = [contexts.Context(below), contexts.Context(below)]
+        for fd, m in zip(fds, split):
+            members[m].register_function(fd, exclusive=flags[m])
+        ctx = CommandedMulti([members[m] for m in member_order])
+        for p in itertools.permutations(range(len(fds))):
+            ctx.command = [fds[i] for i in p]
+            out[('multi', 'members%d%d' % member_order, p)] = R.direct(ctx, call, R.VALUES6)
+    return out, ((True, ovs), (False, (pov,))), call
+
+
+def job_multi_exclusive(tier):
+    res = Result()
+    for fam in multi_exclusive_families():
+        res.case(('multi-exclusive',) + fam)
+        obs, layers, call = observe_multi_exclusive(*fam)
+        v, types, split, flags, parent = fam
+        verdict(res, obs, layers, call, ('multi',), 'MultiContext layer with an exclusive member above a competing parent layer',
+                {'multi_exclusive': fam}, (len(types), 1, False, False, sum(ORDER.index(t) for t in types), fam))
+    return res
+
+
 def job(tier, k, of):
     res = Result()
     fams = families(tier)[k::of]
@@ -362,7 +452,9 @@ def job(tier, k, of):
 
 def jobs(tier, seed):
     of = 32 if tier == 'quick' else 64
-    return [('families-%02d' % k, 'job', (tier, k, of)) for k in range(of)] + [('mixed-no-kwargs', 'job_mixed', (tier,))]
+    return ([('families-%02d' % k, 'job', (tier, k, of)) for k in range(of)] +
+            [('mixed-no-kwargs', 'job_mixed', (tier,)), ('shared-payload', 'job_shared', (tier,)),
+             ('multi-exclusive', 'job_multi_exclusive', (tier,))])
 
 
 def _tuples(v):
@@ -373,7 +465,15 @@ def replay(case):
     if 'overloads' in case:
         ovs, call = _tuples(case['overloads']), _tuples(case['call'])
         layers = ((False, ovs),)
-        obs = observe_orders(ovs, call, set(case['drivers']), rules=True)
+        obs = observe_orders(ovs, call, set(case['drivers']), rules=not case.get('pykw'))
+    elif 'shared_payload' in case:
+        fam = _tuples(case['shared_payload'])
+        ovs = tuple(('s', (P('x', 'pos', t),), kind, False) for t, kind in fam)
+        layers, call = ((False, ovs),), call_for((case['value'],), case['method'])
+        obs = observe_orders(ovs, call, set(case['drivers']),
+                             fds=[shared_definition(i, t, kind) for i, (t, kind) in enumerate(fam)])
+    elif 'multi_exclusive' in case:
+        obs, layers, call = observe_multi_exclusive(*_tuples(case['multi_exclusive']))
     else:
         sigs = tuple(tuple(s) for s in case['signatures'])
         values = tuple(case['values'])
